@@ -141,6 +141,35 @@ Theorem C05_restrictions : forall w sid evs,
 Proof. exact restrictions_fixed. Qed.
 Print Assumptions C05_restrictions.
 
+(* ... and what is enforced is computed from them alone, for every way a session can be started: shell,
+   exec, subsystem (sftp included) - a forced command (certificate force-command, else authorized_keys
+   command=) replaces whatever was requested - and for pty and direct-tcpip requests. *)
+Theorem C05_restrictions_enforced : forall w sid evs,
+  let s := run w sid true evs in
+  complete s = true ->
+  exists p ko co, In p (payloads evs) /\ In (ko, co) (grants_via w sid (username s) (payloads evs) p) /\
+    (forall r, start_session s r = start_under ko co r) /\ forced_command s = forced_under ko co /\
+    pty_allowed s = pty_under ko co /\ (forall h pt, fwd_allowed s h pt = fwd_under ko co h pt).
+Proof. exact restrictions_enforced_fixed. Qed.
+Print Assumptions C05_restrictions_enforced.
+
+Theorem C05_forced_command_replaces_request : forall ko co c r,
+  forced_under ko co = Some c -> start_under ko co r = SExec c.
+Proof. intros ko co c r H. unfold start_under. rewrite H. reflexivity. Qed.
+Print Assumptions C05_forced_command_replaces_request.
+
+(* Keys are never inherited across a user-name switch: whenever packets are being processed, the
+   authorized keys in force are the configured ones or the ones the application installed during
+   begin_auth for the CURRENT user name (reload_config puts the configured set back before every begin_auth;
+   the application may install keys, install none, or leave them alone - [installs]).  Together with
+   C05_sound: a key accepted for u was installed FOR u. *)
+Theorem C05_keys_for_current_user : forall w sid evs,
+  let s := run w sid true evs in
+  dead s = false -> paused s = false ->
+  ak_user s = key_src w (username s) \/ (ak_user s = None /\ username s = []).
+Proof. exact keys_for_current_user_fixed. Qed.
+Print Assumptions C05_keys_for_current_user.
+
 (* The code before the repair violated this: a QUERY (no signature needed) with a certificate carrying
    force-command leaves _cert_options set; when a plain key with its own command= is accepted afterwards
    the certificate's forced command is the one enforced. *)
@@ -175,7 +204,7 @@ Print Assumptions C05_accepts_password.
    with exactly the options of the matching authorized_keys entry. *)
 Theorem C05_accepts_publickey : forall w sid fixed ub alg kb sg U es k o,
   blen ub < 1024 -> blen alg < 4294967296 -> blen kb < 4294967296 -> blen sg < 4294967296 ->
-  prep w ub = Some U -> zlist_eqb U [] = false -> needs_auth w U = true ->
+  prep w ub = Some U -> zlist_eqb U [] = false -> needs_auth w U = true -> installs w U = true ->
   ak_of w (Some U) = Some es -> decode w kb = BKey k -> ak_validate es k None false = Some o ->
   let head := 50 :: sstr ub ++ sstr S_CONN ++ sstr S_PUBLICKEY ++ [1] ++ sstr alg ++ sstr kb in
   verify w k (sstr sid ++ head) sg = true ->
